@@ -37,6 +37,13 @@ pub fn child_loop(n_cases: usize, shard: usize, of: usize, from: usize, mut f: i
 /// Parent side: spawns `shards` children of the current executable with
 /// `<prop> shard <tier> --seed <seed> --shard i/of --from j` and collects results in case order.
 pub fn run_parent(prop: &str, tier: &str, seed: u64, n_cases: usize, shards: usize, extra_env: &[(&str, String)]) -> Vec<CaseResult> {
+    run_parent_with_limit(prop, tier, seed, n_cases, shards, extra_env, 40.0)
+}
+
+/// `default_cpu_limit_s`: CPU seconds one case may burn before its child is killed (a case of C13 is a
+/// whole exploration root with hundreds of executions, everywhere else one execution);
+/// `PV_CASE_CPU_LIMIT_S` overrides it.
+pub fn run_parent_with_limit(prop: &str, tier: &str, seed: u64, n_cases: usize, shards: usize, extra_env: &[(&str, String)], default_cpu_limit_s: f64) -> Vec<CaseResult> {
     // the running image itself (stays valid when the file on disk is replaced by a rebuild)
     let exe = std::path::PathBuf::from("/proc/self/exe");
     let results: Mutex<Vec<Option<CaseResult>>> = Mutex::new((0..n_cases).map(|_| None).collect());
@@ -75,7 +82,7 @@ pub fn run_parent(prop: &str, tier: &str, seed: u64, n_cases: usize, shards: usi
                     let timed_out = std::sync::Arc::new(std::sync::atomic::AtomicBool::new(false));
                     let wd = {
                         let (cur_case, stop, timed_out) = (cur_case.clone(), stop.clone(), timed_out.clone());
-                        let limit: f64 = std::env::var("PV_CASE_CPU_LIMIT_S").ok().and_then(|x| x.parse().ok()).unwrap_or(40.0);
+                        let limit: f64 = std::env::var("PV_CASE_CPU_LIMIT_S").ok().and_then(|x| x.parse().ok()).unwrap_or(default_cpu_limit_s);
                         std::thread::spawn(move || {
                             let cpu = || -> Option<f64> {
                                 let st = std::fs::read_to_string(format!("/proc/{pid}/stat")).ok()?;
